@@ -9,21 +9,33 @@ want = set(base["stable_pass"])
 env = dict(os.environ, GOPROXY="off")
 for k in ("GOFLAGS", "GOTOOLCHAIN", "GOSUMDB", "GOWORK"):
     env.pop(k, None)
-p = subprocess.run(["go", "test", "-json", "-vet=off", "-count=1", "-timeout", "25m", "./..."],
-                   cwd=repo, env=env, capture_output=True, text=True)
 passed, failed = set(), set()
-for line in p.stdout.splitlines():
-    try:
-        ev = json.loads(line)
-    except Exception:
-        continue
-    if "Test" not in ev:
-        continue
-    key = ev["Package"] + "::" + ev["Test"]
-    if ev["Action"] == "pass":
-        passed.add(key)
-    elif ev["Action"] == "fail":
-        failed.add(key)
+def run(pkgs):
+    p = subprocess.run(["go", "test", "-json", "-vet=off", "-count=1", "-timeout", "25m"] + pkgs,
+                       cwd=repo, env=env, capture_output=True, text=True)
+    for line in p.stdout.splitlines():
+        try:
+            ev = json.loads(line)
+        except Exception:
+            continue
+        if "Test" not in ev:
+            continue
+        key = ev["Package"] + "::" + ev["Test"]
+        if ev["Action"] == "pass":
+            passed.add(key)
+            failed.discard(key)
+        elif ev["Action"] == "fail" and key not in passed:
+            failed.add(key)
+run(["./..."])
+# the suite has load-sensitive flakes (synctestx.Hammer WaitGroup reuse, TestPathological timing):
+# re-run only the packages that still miss stable tests, up to two more times
+for attempt in range(2):
+    missing = sorted(want - passed)
+    if not missing:
+        break
+    pkgs = sorted({m.split("::")[0] for m in missing})
+    print(f"retry {attempt+1}: re-running {pkgs}")
+    run(pkgs)
 missing = sorted(want - passed)
 print(f"stable_pass={len(want)} passed_now={len(passed)} failed_now={len(failed)} stable_missing={len(missing)}")
 for m in missing[:50]:
